@@ -38,7 +38,7 @@ pub type Def = Instrument<ExchangeId, Asset>;
 pub type IndexedInstrument = Instrument<Keyed<ExchangeIndex, ExchangeId>, AssetIndex>;
 
 /// Exchanges used by the generators, deliberately not in `Ord` order.
-pub const POOL: [ExchangeId; 8] = [
+pub const POOL: [ExchangeId; 12] = [
     ExchangeId::Kraken,
     ExchangeId::BinanceSpot,
     ExchangeId::Okx,
@@ -47,11 +47,22 @@ pub const POOL: [ExchangeId; 8] = [
     ExchangeId::BinanceFuturesUsd,
     ExchangeId::GateioSpot,
     ExchangeId::Bitfinex,
+    // declared first in the enum although their names ("simulated", "other", "mock") sort last;
+    // Bitvavo is declared before Bithumb although "bithumb" < "bitvavo"
+    ExchangeId::Simulated,
+    ExchangeId::Other,
+    ExchangeId::Bitvavo,
+    ExchangeId::Bithumb,
 ];
-/// never used by a generated instrument: probes for unknown exchanges (smallest / largest in Ord)
-pub const UNUSED: [ExchangeId; 2] = [ExchangeId::Other, ExchangeId::Poloniex];
+/// never used by a generated instrument: probes for unknown exchanges (middle / largest in Ord)
+pub const UNUSED: [ExchangeId; 2] = [ExchangeId::Bitstamp, ExchangeId::Poloniex];
 
-pub const ASSETS: [&str; 6] = ["btc", "eth", "usdt", "usd", "sol", "xbt"];
+/// the first TRADED names are used as base / quote; the rest only ever as settlement (margin)
+/// asset or quantity unit, so that an exchange can own an asset that is the underlying of none
+/// of its instruments (quanto / separately margined contracts)
+pub const ASSETS: [&str; 8] = ["btc", "eth", "usdt", "usd", "sol", "xbt", "bnb", "usdc"];
+pub const TRADED: usize = 6;
+pub const CONTRACT_SIZES: [(i64, u32); 4] = [(1, 0), (1, 3), (1, 2), (100, 0)];
 
 pub fn pool_index(e: ExchangeId) -> Option<usize> {
     POOL.iter().position(|x| *x == e)
@@ -358,6 +369,23 @@ pub struct Blueprint {
     pub base_spelling: Option<Spelling>,
 }
 
+/// plain spot blueprint
+pub fn spot_bp(exchange: ExchangeId, spelling: Spelling, base: usize, quote: usize) -> Blueprint {
+    Blueprint {
+        exchange,
+        spelling,
+        base,
+        quote,
+        kind: KindTag::Spot,
+        settlement: quote,
+        unit: UnitTag::NoSpec,
+        variant: 0,
+        name_internal: None,
+        name_exchange: None,
+        base_spelling: None,
+    }
+}
+
 fn asset_of(sp: Spelling, idx: usize) -> Asset {
     Asset::new(ASSETS[idx], spell(sp, ASSETS[idx]))
 }
@@ -366,7 +394,8 @@ pub fn build_def(b: &Blueprint) -> Def {
     let base = asset_of(b.base_spelling.unwrap_or(b.spelling), b.base);
     let quote = asset_of(b.spelling, b.quote);
     let settle = asset_of(b.spelling, b.settlement);
-    let size = Decimal::new(1 + (b.variant % 3) as i64, 0);
+    let (sm, ss) = CONTRACT_SIZES[(b.variant % 4) as usize];
+    let size = Decimal::new(sm, ss);
     let expiry = Utc
         .timestamp_millis_opt(1_800_000_000_000 + 86_400_000 * (b.variant as i64 % 4))
         .unwrap();
@@ -487,10 +516,10 @@ pub fn gen_catalogue(r: &mut Rng, o: &GenOpts) -> (Vec<Blueprint>, Vec<String>) 
         guard += 1;
         // the first entries cover every chosen exchange, the rest are spread at random
         let (exchange, spelling) = if cat.len() < exs.len() && guard <= exs.len() { exs[cat.len()] } else { *r.pick(&exs) };
-        let base = r.below(ASSETS.len() as u64) as usize;
-        let mut quote = r.below(ASSETS.len() as u64) as usize;
+        let base = r.below(TRADED as u64) as usize;
+        let mut quote = r.below(TRADED as u64) as usize;
         if quote == base {
-            quote = (quote + 1) % ASSETS.len();
+            quote = (quote + 1) % TRADED;
         }
         let kind = if o.spot_only {
             KindTag::Spot
@@ -502,16 +531,20 @@ pub fn gen_catalogue(r: &mut Rng, o: &GenOpts) -> (Vec<Blueprint>, Vec<String>) 
                 _ => KindTag::Option,
             }
         };
-        let settlement = match r.below(3) {
+        // settlement = quote, = base, some traded asset, or a settlement-only asset (shared by
+        // all exchanges: quanto style)
+        let settlement = match r.below(5) {
             0 => quote,
             1 => base,
-            _ => r.below(ASSETS.len() as u64) as usize,
+            2 => r.below(TRADED as u64) as usize,
+            _ => TRADED + r.below((ASSETS.len() - TRADED) as u64) as usize,
         };
-        let unit = match r.below(10) {
+        let unit = match r.below(11) {
             0..=3 => UnitTag::NoSpec,
             4 => UnitTag::Asset(base),
             5 => UnitTag::Asset(quote),
             6 => UnitTag::Asset(r.below(ASSETS.len() as u64) as usize),
+            10 => UnitTag::Asset(TRADED + r.below((ASSETS.len() - TRADED) as u64) as usize),
             7 | 8 => UnitTag::Contract,
             _ => UnitTag::Quote,
         };
@@ -598,6 +631,44 @@ pub fn gen_collection(r: &mut Rng, o: &GenOpts) -> (Vec<Def>, Vec<String>) {
         out.push(r.pick(&defs).clone());
     }
     r.shuffle(&mut out);
+    let mut tags = tags;
+    if !defs.is_empty() && r.chance(1, 5) {
+        // the same definition three times, never adjacent: A x A y A ...
+        let a = r.pick(&defs).clone();
+        let mut others: Vec<Def> = out.iter().filter(|d| **d != a).cloned().collect();
+        while others.len() < 2 {
+            match defs.iter().find(|d| **d != a) {
+                Some(d) => others.push(d.clone()),
+                None => break,
+            }
+        }
+        out = if others.len() >= 2 {
+            let mut v = vec![a.clone(), others[0].clone(), a.clone(), others[1].clone(), a.clone()];
+            v.extend(others[2..].iter().cloned());
+            v
+        } else {
+            vec![a.clone(), a.clone(), a]
+        };
+        tags.push("triple_non_adjacent".into());
+    }
+    if o.adversarial && r.chance(1, 4) {
+        // A, B, A where B shares (exchange, internal name) with A but differs elsewhere: the
+        // duplicate is separated by a sibling that a coarser sort key cannot tell apart
+        if let Some(bp) = cat.first() {
+            let a = build_def(bp);
+            let mut sib = bp.clone();
+            sib.variant = bp.variant + 7;
+            sib.unit = if bp.unit == UnitTag::Contract { UnitTag::Quote } else { UnitTag::Contract };
+            sib.name_internal = Some(a.name_internal.name().to_string());
+            sib.name_exchange = Some(a.name_exchange.name().to_string());
+            let b = build_def(&sib);
+            if a != b {
+                let at = r.below(out.len() as u64 + 1) as usize;
+                out.splice(at..at, [a.clone(), b, a]);
+                tags.push("aba_same_key_sibling".into());
+            }
+        }
+    }
     (out, tags)
 }
 
